@@ -140,8 +140,8 @@ mutual
                   else encTy e t x (pos + pre.length))
         | .fixed c, .arr xs => encElems e t xs c pos
         | .fixed c, .bytes b => written (b.take c)
-        | .dyn s, .arr xs => encElems e t xs (castCount (sizerPrimOf s all) xs.length) pos
-        | .dyn s, .bytes b => written (b.take (castCount (sizerPrimOf s all) b.length))
+        | .dyn s _, .arr xs => encElems e t xs (castCount (sizerPrimOf s all) xs.length) pos
+        | .dyn s _, .bytes b => written (b.take (castCount (sizerPrimOf s all) b.length))
         | .limited s lim, .arr xs =>
           overlay (encElems e t xs (castCount (sizerPrimOf s all) (min xs.length lim)) pos) msize
         | .limited s lim, .bytes b =>
@@ -180,7 +180,7 @@ mutual
       List Member → List Val → List PL.Mem → List (Nat × Nat × Int) → Int → Int → Int
     | .mk _ t k :: r, v :: vs, mem :: mems, (msize, _, padding) :: ls, acc, bytes =>
       let dynOrGreedy := match k with
-        | .dyn _ => true
+        | .dyn _ _ => true
         | .greedy => true
         | _ => false
       let (acc1, bytes1) : Int × Int :=
@@ -423,7 +423,7 @@ mutual
           | .fault => (.fault, pos)
           | .throw rs1 => (.throw rs1, pos)
         | .fixed c => retag (decArray elem t c size pos rs) (fun v => (v, lens))
-        | .dyn _ => retag (decArray elem t ((lens.lookup n).getD 0) size pos rs) (fun v => (v, lens))
+        | .dyn _ _ => retag (decArray elem t ((lens.lookup n).getD 0) size pos rs) (fun v => (v, lens))
         | .limited _ _ =>
           -- do_decode_in_place (position by value) && do_decode_advance(byte_size)
           match decArray elem t ((lens.lookup n).getD 0) size pos rs with
